@@ -54,6 +54,9 @@ type Oracle struct {
 }
 
 func oracleBin() string {
+	if b := os.Getenv("VERIF_ORACLE_BIN"); b != "" {
+		return b
+	}
 	// the race-instrumented worker asks a plain build of the same sources
 	b := os.Args[0]
 	if strings.HasSuffix(b, ".race") {
